@@ -29,11 +29,14 @@ s = s[:i] + t74 + '\n' + s[j:]
 rows = []
 for d in sorted(glob.glob(os.path.join(here, 'seeded', '*', 'meta.json'))):
     m = json.load(open(d))
-    rows.append((m['id'], m['breaks_property'], ', '.join(m['caught_by_quick_checks']), ', '.join(m['not_caught_by']) or '—', 'yes' if 'strengthening' in m else ''))
+    rows.append((m['id'], m['breaks_property'], ', '.join(m['caught_by_quick_checks']) + (' (no longer a defect, see meta.json)' if m.get('neutralised_by') else ''),
+                 ', '.join(m['not_caught_by']) or '—', 'yes' if 'strengthening' in m else ''))
 nstr = sum(1 for r in rows if r[4])
 t75 = '''### 7.5 Seeded changes (independent sub-agents; `/verif/seeded/<id>/`)
-Each sub-agent received only the text of one property and a scratch worktree (rounds 2 and 3 additionally a one-line description of
-the changes already produced for that property, to be avoided), and had to deliver two source changes that keep all 1987 repository
+Each sub-agent received only the text of one property and a scratch worktree (rounds 2 to 4 additionally a one-line description of
+the changes already produced for that property, to be avoided; round 4 also the request to aim at what random and hostile workloads
+are unlikely to reach - one grammar version, a rare token, a boundary value, a long or order-sensitive sequence, two coinciding
+conditions - and to confirm with a fuzz loop of its own that plain random inputs do not expose the change), and had to deliver two source changes that keep all 1987 repository
 tests passing, break the property, need something specific to manifest, and come with a demonstration that fails with the change and
 passes without.  Every change below was re-confirmed with `tools/try_mutant.sh` (suite passes with the change; demo exit 1 with /
 exit 0 without) and then run against the listed quick checks through `PARSO_SRC` (a scratch worktree; `/repo` itself was never
@@ -56,7 +59,13 @@ form and first token = every plan of the tables; lossless-tokenizer domain guard
 alias / f-string-text / long-unpacking / dotted-__future__ snippets; deterministic all-snippets pass), C13 (re-listing after other
 calls), C15 (reference authoritative for lone CR; long codec names; files read by path), C16 (in-flight write during a diff_cache
 re-parse; eviction under real grammar hashes followed by a cross-grammar parse; version-sensitive contents), C17 (access and
-modification times drawn independently).  Sub-agents also reported defects of the *unchanged* tree that their demonstrations had to
+modification times drawn independently).  Round 4 (changes E/F; aimed at rare triggers) was missed more often at first - 17 of its
+first 24 changes - and led to: a deep-nesting generator and an end-of-file generator in the hostile mix, compositional generators for
+binding targets and for yield/await positions, the line-coverage census of section 7.2c with triggers for every reachable unexecuted
+branch of errors.py, C04 line-ending styles / tail edits / crowded memory cache, C05 param grouping, C11 node-level leaf navigation,
+C13 sub-tree listings, C15 results edited by the caller, C16 epoch and future modification-time lines, C17 empty/half-written
+entries and a save in progress during clean-up, C19 deepest-leaf refactoring targets and pickling of queried trees.  One earlier
+change (C19-A) stopped being a defect after a later repair of `_create_params` and is kept for the record only.  Sub-agents also reported defects of the *unchanged* tree that their demonstrations had to
 avoid (list target in a comprehension with a walrus -> UnboundLocalError; f-string text equal to a keyword feeding syntax rules and
 is_generator(); comma lost when `def f(*,)` is rebuilt from its dump; a damaged pickle that still unpickles to a wrong tree -- the
 last one is a limit of a checksum-less cache and was excluded from the enumeration, the others were reproduced, repaired and the
